@@ -676,3 +676,67 @@ def rule_basekey(ctx, prop: str) -> RuleResult:
         raise AnalysisError(f"BASEKEY: expected >= 3 membership tests against self.non_const, found {n}")
     res.floor = 3
     return res
+
+
+def rule_tokenglue(ctx, prop: str) -> RuleResult:
+    """C text is built by concatenation.  A prefix `-` glued directly onto the text of a
+    sub-expression that may itself begin with `-` (a nested negation, a negative literal
+    produced by partial_eval) yields the token `--`, the C *decrement* operator:
+    `x[i] = --y[i];` writes y (or does not compile against `const float* y`) and
+    `i < --3` is not C at all.  Every f-string / concatenation in the C emitter that puts a
+    sub-expression's text right after a literal ending in `-` must parenthesise it or test
+    `text.startswith("-")` first."""
+    ix = ctx.ix
+    res = RuleResult("TOKENGLUE")
+    m = ix.module(COMP)
+
+    def guarded(js: ast.AST, name: Optional[str], f: Func) -> bool:
+        if name is None:
+            return False
+        par = parent(js)
+        # `A if text.startswith("-") else f"-{text}"`
+        if isinstance(par, ast.IfExp) and par.orelse is js:
+            t = ast.unparse(par.test)
+            if f"{name}.startswith('-')" in t:
+                return True
+        if isinstance(par, ast.IfExp) and par.body is js:
+            t = ast.unparse(par.test)
+            if f"not {name}.startswith('-')" in t:
+                return True
+        # an earlier `if text.startswith("-"): return ...` in the same block
+        st = js
+        while st is not None and not isinstance(st, ast.stmt):
+            st = parent(st)
+        blk_owner = parent(st) if st is not None else None
+        for fld in ("body", "orelse"):
+            blk = getattr(blk_owner, fld, None)
+            if isinstance(blk, list) and st in blk:
+                for prev in blk[: blk.index(st)]:
+                    if isinstance(prev, ast.If) and f"{name}.startswith('-')" in ast.unparse(prev.test) and prev.body and isinstance(prev.body[-1], (ast.Return, ast.Raise)):
+                        return True
+        return False
+
+    n = 0
+    for f in sorted((f for f in ix.all_funcs() if f.file == COMP), key=lambda f: f.lineno):
+        for js in f.body_nodes():
+            if not isinstance(js, ast.JoinedStr):
+                continue
+            vals = js.values
+            for i in range(len(vals) - 1):
+                a, b = vals[i], vals[i + 1]
+                if isinstance(a, ast.Constant) and isinstance(a.value, str) and a.value.endswith("-") and isinstance(b, ast.FormattedValue):
+                    n += 1
+                    res.instances += 1
+                    res.nontrivial += 1
+                    nm = b.value.id if isinstance(b.value, ast.Name) else None
+                    ok = guarded(js, nm, f)
+                    res.ob(ok)
+                    res.sample(f"{f.qualname}: `{ast.unparse(js)[:60]}` guarded against a leading '-': {ok}")
+                    if not ok:
+                        res.add(Finding("TOKENGLUE", COMP, js.lineno, f.qualname, f"glue:-{ast.unparse(b.value)[:40]}",
+                                        f"`{ast.unparse(js)[:70]}` glues a prefix minus onto the text of a sub-expression that may itself start with `-` (nested negation, negative literal from partial_eval): "
+                                        f"the emitted `--` is the C decrement operator — `x[i] = --y[i];` / `i < --3`"))
+    if n < 2:
+        raise AnalysisError(f"TOKENGLUE: expected the two unary-minus emitters (comp_e, comp_cir) in the C emitter, found {n} — idiom changed, checker blind")
+    res.floor = 2
+    return res
